@@ -69,7 +69,9 @@ pub fn run(tier: &str) -> i32 {
     let wit = run_passes(&mut o, &ps);
     // E2 part: a crash before every file-mutating call of create/delete/reopen programs
     let q = tier == "quick";
-    let plans = vec![crate::props::c02::Plan {
+    let plans = vec![
+        crate::props::c02::Plan { fixed: Some(crate::props::c02::canonical_programs()), name: "canonical", cfg: Cfg { prov: true, ..Cfg::default2() }, prefix: "", alpha: Alpha::empty(), depth: 0 },
+        crate::props::c02::Plan {
         fixed: None,
         name: "c12-crash",
         cfg: Cfg { prov: true, ..Cfg::default2() },
